@@ -25,6 +25,29 @@ def run(chk):
     r1 = chk.rule("R08.1", "threshold table: off-cycle 25/35/70-day rules, 50 % coverage rule, granularity cut points (operator and constant)", 14)
     r2 = chk.rule("R08.2", "aggregation-kind typing: cumulative -> sum (+count coverage), instantaneous -> mean; value/coverage only on sums and always on kept sums; kept/blanked masks complementary", 6)
     r3 = chk.rule("R08.3", "spreading uses each reading's own interval; billing usage is spread with the cumulative branch and the open final row is dropped", 5)
+    r4 = chk.rule("R08.4", "gaps reach the coverage rule: the usage series the daily data class hands to the down-sampling helper still carries its missing readings, so a thinly covered day can be rescaled or blanked", 1)
+    # _DailyData._compute_meter_value_df interpreted on recording values (rules/daycompletion.py): the first argument of the cleaning /
+    # down-sampling call is read off the term.  A reading that is NaN and dropped beforehand is not a gap to as_freq any more: the
+    # previous reading is spread over it, the day counts as fully covered and its total is neither divided by the coverage nor blanked.
+    from engine.absint import Sym, sym_walk, canon
+    from rules import daycompletion
+    from rules.common import DAILY_DATA
+    mvf = chk.repo.func(DAILY_DATA, "_DailyData._compute_meter_value_df")
+    n_calls = 0
+    for o in daycompletion.outcomes(chk):
+        if "raises" in o:
+            continue
+        for sx in sym_walk(o["result"]):
+            if isinstance(sx, Sym) and sx._op == "call" and isinstance(sx._args[0], Sym) and sx._args[0].key() == "clean_billing_daily_data" and sx._args[1]:
+                n_calls += 1
+                arg = canon(sx._args[1][0])
+                lossy = [m for m in (".dropna(", ".fillna(", ".ffill(", ".bfill(", ".interpolate(", ".notna()", ".notnull()", "isna()", "isnull()") if m in arg]
+                r4.require(not lossy, f"{mvf.key}|usage-gaps-lost-before-coverage:{lossy[0].strip(chr(46)+chr(40)+chr(41)) if lossy else chr(45)}", mvf.where(),
+                           f"_compute_meter_value_df hands `{arg[:120]}` to clean_billing_daily_data: missing readings are removed ({lossy[0].strip('.(')}) before the coverage of each day is counted, so "
+                           "a sub-daily meter's day with 25 % of its readings comes back as the plain sum of those readings (not missing) and a day with 75 % is not divided by its coverage",
+                           sample={"argument": arg[:120]})
+    if n_calls < 1:
+        raise AnalysisError(f"{mvf.key}: no call of clean_billing_daily_data found in the interpreted result (anchor changed)")
 
     # ------------------------------------------------------------------ R08.1 clean_billing_data
     cb = chk.repo.func(DPU, "clean_billing_data")
